@@ -139,6 +139,7 @@ impl core::ops::Index<core::ops::RangeFrom<usize>> for BytesMut {
 pub fn memchr(needle: u8, hay: &BytesMut) -> (r: Option<usize>)
     ensures
         r matches Some(i) ==> i < hay@.len() && hay@[i as int] == needle && forall|j: int| 0 <= j < i ==> hay@[j] != needle,
+        r matches Some(i) ==> i < isize::MAX as usize,      // a Rust slice is at most isize::MAX bytes long
         r is None ==> forall|j: int| 0 <= j < hay@.len() ==> hay@[j] != needle,
 { unimplemented!() }
 
